@@ -590,10 +590,10 @@ def torchFunctionGrid (op : TOp) (grids : List (List GridTag)) : Option GridRes 
       | .split size _ =>                                                               -- @114-120
           if size = 0 then none   -- range() with step 0 raises ValueError (handled by caller as dispatch error)
           else some (.nested ((List.range ((g0.length + size - 1) / size)).map (fun k => pySlice g0 (k * size) size)))
-      | .splitL secs _ =>                                                              -- @121-125: `start` is never advanced
-          some (.nested (secs.map (fun num => pySlice g0 0 num)))
-      | .splitWS secs _ =>                                                             -- @126-133: `start` is never advanced
-          some (.nested (secs.map (fun num => pySlice g0 0 num)))
+      | .splitL secs _ =>                                                              -- @121-126: start += num
+          some (.nested ((secs.zip (offsets secs 0)).map (fun (na : Nat × Nat) => pySlice g0 na.2 na.1)))
+      | .splitWS secs _ =>                                                             -- @127-135: start += num
+          some (.nested ((secs.zip (offsets secs 0)).map (fun (na : Nat × Nat) => pySlice g0 na.2 na.1)))
       | .tsplitN n _ =>                                                                -- @138-140: `n` used as a step
           if n = 0 then none
           else some (.nested ((List.range ((g0.length + n - 1) / n)).map (fun k => pySlice g0 (k * n) n)))
@@ -614,13 +614,14 @@ def ibResult (data : Raw) (grid : Option (List GridTag)) : Val :=
       if data.ndim = g0.shape.length + 2 ∧ data.shape.headD 0 = gs.length ∧ data.shape.drop 2 = g0.shape
       then ofExcept (mkImageBatch data gs) else .one (.plain data)
 
-/-- flow.py:FlowFields._torch_function_result @119-141 (NO test of `data.shape[0] == len(grid)`) -/
+/-- flow.py:FlowFields._torch_function_result @119-142 -/
 def ffResult (data : Raw) (grid : Option (List GridTag)) (axes : Option Nat) : Val :=
   match grid, axes with
   | some [], _ =>
       if data.ndim ≥ 4 ∧ data.shape.headD 0 = 0 then ofExcept (mkFlowFields data [] axes) else ibResult data grid
   | some (g0 :: gs), some a =>
-      if data.ndim = g0.shape.length + 2 ∧ data.shape.getD 1 0 = g0.shape.length ∧ data.shape.drop 2 = g0.shape
+      if data.ndim = g0.shape.length + 2 ∧ data.shape.headD 0 = (g0 :: gs).length ∧
+          data.shape.getD 1 0 = g0.shape.length ∧ data.shape.drop 2 = g0.shape
       then ofExcept (mkFlowFields data (g0 :: gs) (some a)) else ibResult data grid
   | _, _ => ibResult data grid
 
@@ -789,7 +790,9 @@ def normIndex (nd : Nat) : Index → Option (List Ix × Bool)
 /-- image.py:__getitem__ @354-358: which grid(s) the first index selects -/
 def gridSel (grids : List GridTag) : Ix → Option GridSel
   | .list l => (l.mapM (pyGet grids)).map GridSel.manyGrids
-  | .mask m => (m.mapM (fun b => pyGet grids (if b then 1 else 0))).map GridSel.manyGrids   -- True/False used as indices
+  | .mask m =>                                                                   -- @358-361: mask.nonzero().flatten()
+      ((((List.range m.length).filter (fun i => m.getD i false)).map Int.ofNat).mapM (pyGet grids)).map
+        GridSel.manyGrids
   | .int i => (pyGet grids i).map GridSel.oneGrid
   | .slice a b s => some (.manyGrids (pick grids (sliceIdx grids.length a b ((s.getD 1).toNat))))
   | .ell => none
@@ -816,10 +819,7 @@ def getitemCore (flow : Bool) (axes : Nat) (t : Raw) (grids : List GridTag) (idx
 /-- image.py:ImageBatch.__getitem__ @320-376 -/
 def batchGetitem (flow : Bool) (axes : Nat) (t : Raw) (grids : List GridTag) (index : Index) : Val :=
   match index with
-  | .single .ell =>                                                              -- @325-326: `self.grid()` is grid 0 only
-      match grids.head? with
-      | none => .err .dispatch
-      | some g => ofExcept (makeInstance1 flow axes t g)
+  | .single .ell => ofExcept (makeInstance flow axes t grids)                     -- @327-328: all grids
   | _ =>
     match normIndex t.ndim index with
     | none => .err .dispatch
@@ -836,20 +836,23 @@ def batchIter (flow : Bool) (axes : Nat) (t : Raw) (grids : List GridTag) : Val 
 def GridTag.narrow (g : GridTag) (gdim start length : Nat) : GridTag :=
   ⟨g.src, setAt g.shape (g.shape.length - 1 - gdim) length, g.hist ++ [(gdim, start, length)]⟩
 
-/-- image.py:ImageBatch.narrow @423-429 -/
+/-- image.py:ImageBatch.narrow @428-436. `dim == 0` and `dim > 1` test the argument as given: a NEGATIVE dim takes
+    neither branch, the grids are passed on unchanged. -/
 def batchNarrow (flow : Bool) (axes : Nat) (t : Raw) (grids : List GridTag) (dim start len : Int) : Val :=
   match torchSem (.narrowF dim start len) t none with
   | .t data =>
-    match grids.head? with                                                        -- grid = self.grid()  (grid 0)
+    let gs' : Option (List GridTag) :=
+      if dim = 0 then                                                              -- grid[start : start + length]
+        (if 0 ≤ start ∧ 0 ≤ len then some (pySlice grids start.toNat len.toNat)    -- (python slice, non-negative bounds)
+         else some (pick grids (sliceIdx grids.length (some start) (some (start + len)) 1)))
+      else if dim > 1 then
+        let gd := (t.ndim : Int) - dim - 1
+        grids.mapM (fun g =>
+          if gd < 0 ∨ gd > (g.shape.length : Int) then none else some (g.narrow gd.toNat start.toNat len.toNat))
+      else some grids
+    match gs' with
     | none => .err .dispatch
-    | some g =>
-      let g' := if dim > 1 then
-                  let gd := (t.ndim : Int) - dim - 1
-                  if gd < 0 ∨ gd > (g.shape.length : Int) then none else some (g.narrow gd.toNat start.toNat len.toNat)
-                else some g
-      match g' with
-      | none => .err .dispatch
-      | some g' => ofExcept (makeInstance1 flow axes data g')
+    | some gs' => ofExcept (makeInstance flow axes data gs')
   | _ => .err .torch
 
 /-- image.py:Image.batch @1049-1061 / flow.py:FlowField.batch @482-485 -/
